@@ -664,7 +664,6 @@ namespace c12
         Rng rng(caseSeed(a, c));
         int regime = rng.ui(10) < 5 ? 0 : (rng.ui(5) < 3 ? 1 : 2);  // 0 exact, 1 float, 2 hostile
         const char *RN[] = {"exact", "float", "hostile"};
-        PDF pdf;
         std::vector<std::pair<PDF::Element *, long>> live;
         std::map<long, double> w;
         long next = 0;
@@ -679,12 +678,43 @@ namespace c12
                 if (k == 2) return 0.1 * (1 + rng.ui(10));
                 return rng.uni(0, 10);
             }
-            int k = rng.ui(6);
+            int k = rng.ui(8);
             if (k == 0) return 1e30;
             if (k == 1) return 1e-30;
             if (k == 2) return 0.0;
+            // huge ratios whose partial sums are exactly representable (a patched and a recomputed sum can then agree by accident)
+            if (k == 3) return rng.coin() ? std::ldexp(1.0, 60) : 1e20;
+            if (k == 4) return rng.coin() ? 1024.0 : 1.0;
             return rng.uni(0, 3);
         };
+        // a third of the histories start from the two-vector constructor (bulk construction), with sizes steered through the row
+        // counts of the tree (2^k, 2^k +- 1) up to a few thousand elements: 1 025 elements need a 12th row
+        std::unique_ptr<PDF> pdfHolder;
+        if (rng.ui(3) == 0)
+        {
+            static const long SZ[] = {0, 1, 2, 3, 4, 5, 7, 8, 9, 15, 16, 17, 31, 33, 64, 65, 127, 129, 255, 257, 511, 513, 1023, 1024, 1025, 1026, 1500, 2047, 2049, 3000};
+            long n = SZ[rng.ui(sizeof SZ / sizeof SZ[0])];
+            if (rng.ui(4) == 0) n = rng.ui(1200);
+            std::vector<long> d;
+            std::vector<double> ws;
+            for (long i = 0; i < n; ++i)
+            {
+                d.push_back(next);
+                ws.push_back(weight());
+                w[next] = ws.back();
+                ++next;
+            }
+            pdfHolder.reset(new PDF(d, ws));
+            const auto &els = pdfHolder->getElements();
+            if ((long)els.size() != n) sink.viol("C12:size:PDF", J().str("what", "two-vector constructor: getElements() size differs from the number of elements given").i("got", els.size()).i("given", n));
+            for (size_t i = 0; i < els.size() && i < (size_t)n; ++i) live.push_back({els[i], d[i]});
+            sink.count("c12_bulk_constructed");
+            if (n > 1024) sink.count("c12_bulk_constructed_over_1024");
+            // fewer operations on big structures (the model comparison after every operation is linear in the size)
+            if (n > 500) nops = std::min(nops, 400);
+        }
+        else pdfHolder.reset(new PDF());
+        PDF &pdf = *pdfHolder;
         std::string lastOp;
         auto detail = [&](const std::string &what) {
             return J().str("what", what).str("regime", RN[regime]).str("after", lastOp).i("size", (long)live.size());
